@@ -15,7 +15,10 @@ iterator pipelines — see C15_helpers):
   R4 binary selection    build_binary call sites as effects of build_buildpack_binaries: the one outside any iteration
                          builds the determined target under `names.contains(target)`; the iterated one runs once per
                          binary target name with the single per-element condition `name != main target`, and the map
-                         returned as additional_target_binary_paths is keyed by that name; a missing main is an error
+                         returned as additional_target_binary_paths is keyed by that name; a missing main is an error.
+                         "The determined target" / "the binary target names" are *values*: <projection of> g(<this function's
+                         cargo metadata>) for the function(s) g that R10 decides on (H.find_roles: one function per value, or
+                         one function returning both in a struct / tuple)
   R5 stdout discipline   in cargo-libcnb the only stdout print runs once per entry of the id -> packaged-dir map under the
                          single per-entry condition "some selected root node has this id" (filter stage or `if`), and
                          prints that entry's directory
@@ -32,9 +35,14 @@ Deepening round (C15_helpers, second half) — the functions that carry the data
   R9 build_binary        Ok(path) only under ExitStatus::success(); path = target_directory/triple/<debug|release>/name;
                          `--release` passed exactly for the profile read from release/
   R10 cargo.rs           binary target names = names of *all* root-package targets with is_bin() (no truncation); the main
-                         target is the only binary target or the one named like the package (membership checked)
+                         target is the only binary target or the one named like the package (membership checked) — decided on
+                         the function(s) providing these two values to build_buildpack_binaries, per definition of the
+                         (projected) success value with the branch decisions it is made under
   R11 buildpack kind     LibCnbRs <=> component descriptor + Cargo.toml, Composite <=> composite descriptor; dispatch
-  R12 discovery          ignore-file honouring walk from the start directory, entries with buildpack.toml, no truncation;
+  R12 discovery          ignore-file honouring walk from the start directory, entries with buildpack.toml, no truncation —
+                         whether the result is a collected iterator pipeline or a fresh Vec pushed to in one pass over the
+                         walk (loop / for_each closure; every selected entry reaches the push, nothing else touches the Vec,
+                         no success before the pass is over); the value kept per entry is the entry's own path;
                          workspace root by `cargo locate-project --workspace` in the invocation directory
 Not decided: cargo's build, contents of binaries, interrupted-run states beyond the wipe, the constant written as the
 libcnb.rs package.toml.
@@ -236,7 +244,12 @@ def run(ctx, rep):
     E4 = Effects(prog, sl, vocab={BUILD: ('BUILD', 5), SET_INSERT: ('PUT', 1)})
     may4 = H.expand(E4, bb, 'may')
     builds = [(e, H.selection(E4, e)) for e in may4 if e.kind == 'BUILD']
-    has = lambda v, name: any(x[0] == 'call' and x[1] == name for x in L.walk_deep(sl, v))
+    # "the binary target names" / "the buildpack's own target" are the values provided by the functions R10 decides on
+    # (one function each, or one function returning both: H.find_roles), applied to this function's cargo metadata
+    roles = H.find_roles(prog, sl)
+    is_md = lambda a: a[0] == 'param' and a[1] == bb.path and a[2] < len(bb.args) and 'cargo_metadata::Metadata' in str(bb.args[a[2]])
+    is_names_v = lambda v: roles.names is not None and H.role_of(prog, v, is_md) == roles.names
+    is_main_v = lambda v: roles.main is not None and H.role_of(prog, v, is_md) == roles.main
     main_build = [(e, s) for e, s in builds if not s.iterations]
     ok = len(main_build) == 1
     t_main = None
@@ -245,8 +258,8 @@ def run(ctx, rep):
         t_main = strip(e.path)
         cds = [(v, oc) for cd, views, _ in guards_of(E4, e) if cd.kind == 'bool' for v, oc in views
                if strip(v)[0] == 'call' and strip(v)[1].endswith('::contains') and len(strip(v)[2]) == 2]
-        ok = bool(cds) and all(oc is True for v, oc in cds) and any(has(strip(v)[2][0], NAMES) and has(strip(v)[2][1], DETERMINE) for v, oc in cds)
-        ok = ok and has(t_main, DETERMINE)
+        ok = bool(cds) and all(oc is True for v, oc in cds) and any(is_names_v(strip(v)[2][0]) and is_main_v(strip(v)[2][1]) for v, oc in cds)
+        ok = ok and is_main_v(t_main)
     rep.check(ok, 'R4', 'main', w(bb), 'main binary = determined target, built only if it is among the binary targets', 'main binary selection changed')
     errs = [s for g in [bb] + prog.closures_of(bb) for b in g.blocks for s in b['s'] if s[0] == '=' and s[2]['r'] == 'agg' and s[2].get('variant') == 'MissingBuildpackTarget']
     rep.check(bool(errs), 'R4', 'main/missing-error', w(bb), 'missing main target is an error', 'no MissingBuildpackTarget error')
@@ -259,7 +272,7 @@ def run(ctx, rep):
         it = s.iterations[0]
         # one pass over the binary target names, each element's own name handed to build_binary, the only per-element
         # condition being "differs from the main target"
-        ok = len(s.iterations) == 1 and preds is not None and len(preds) == 1 and it.elem is not None and H.same(tv, it.elem) and has(it.base, NAMES)
+        ok = len(s.iterations) == 1 and preds is not None and len(preds) == 1 and it.elem is not None and H.same(tv, it.elem) and is_names_v(it.base)
         if ok:
             ok = False
             for v, oc in H.pred_views(preds[0]):
